@@ -17,6 +17,7 @@ from ..spec import layout as L
 from ..spec.bits import W
 
 BP = "lib/py/bitprotolib/bp.py"
+LAST_BP = None
 
 SHADOWS = dict(int=sym_int, min=sym_min, max=sym_max, len=sym_len, bool=sym_bool, abs=sym_abs,
                isinstance=sym_isinstance)
@@ -102,6 +103,8 @@ def load_runtime():
     pkg.__path__ = []
     sys.modules["bitprotolib"] = pkg
     sys.modules["bitprotolib.bp"] = bp
+    global LAST_BP
+    LAST_BP = bp
     return bp
 
 
@@ -226,3 +229,175 @@ def run_reencode(E: EN.Engine, inst, msg: L.Message, buf: CBytes):
     for k in range(min(len(got), len(buf.v))):
         E.oblige("reencode/byte[%d]" % k, lift(got[k]) == lift(buf.v[k]))
     E.oblige("reencode/length", z3.BoolVal(len(got) == L.nbytes(msg)))
+
+
+# ------------------------------------------------------------------ C16: to_dict / to_json
+class JsonText:
+    """result of the stubbed json.dumps: stands for 'the JSON text of this tree' (assumed contract of json.dumps:
+    the argument must be a tree of dict/list/str/int/bool/None after `default` was applied to other leaves; the
+    text parses back to that tree)"""
+
+    def __init__(self, tree):
+        self.tree = tree
+
+
+def _json_stub(E):
+    def dumps(obj, indent=None, separators=None, default=None, **kw):
+        def conv(o, path):
+            if isinstance(o, dict):
+                for k in o:
+                    E.oblige("json/key-is-str%s" % path, z3.BoolVal(isinstance(k, str)), kind="pre-of-callee")
+                return {k: conv(v, "%s.%s" % (path, k)) for k, v in o.items()}
+            if isinstance(o, (list, tuple)):
+                return [conv(x, "%s[%d]" % (path, i)) for i, x in enumerate(o)]
+            if o is None or isinstance(o, (bool, int, str, SymInt, SymBool)):
+                return o
+            if default is not None:
+                try:
+                    r = default(o)
+                except TypeError as e:
+                    E.oblige("json/serializable%s" % path, False, kind="pre-of-callee")
+                    return None
+                if isinstance(r, CBytes):
+                    r = list(r.v)
+                return conv(r, path)
+            E.oblige("json/serializable%s (TypeError: Object of type %s is not JSON serializable)" % (path, type(o).__name__),
+                     False, kind="pre-of-callee")
+            return None
+        return JsonText(conv(obj, ""))
+    m = types.ModuleType("json")
+    m.dumps = dumps
+    return m
+
+
+def json_tree(t: L.Ty, v):
+    r = L.resolve(t)
+    if isinstance(r, L.Message):
+        return {f.name: json_tree(f.type, v[f.name]) for f in r.sorted_fields()}
+    if isinstance(r, L.Array):
+        return [json_tree(r.elem, v[k]) for k in range(r.cap)]
+    return v
+
+
+def _cmp_tree(E, got, want, path, label):
+    if isinstance(want, dict):
+        ok = isinstance(got, dict) and list(got.keys()) == list(want.keys())
+        E.oblige("%s/keys-in-field-number-order%s" % (label, path), z3.BoolVal(ok))
+        if ok:
+            for k in want:
+                _cmp_tree(E, got[k], want[k], "%s.%s" % (path, k), label)
+        return
+    if isinstance(want, list):
+        ok = isinstance(got, list) and len(got) == len(want)
+        E.oblige("%s/list%s" % (label, path), z3.BoolVal(ok))
+        if ok:
+            for i, (g, w) in enumerate(zip(got, want)):
+                _cmp_tree(E, g, w, "%s[%d]" % (path, i), label)
+        return
+    if isinstance(got, (dict, list)) or got is None:
+        E.oblige("%s/leaf%s" % (label, path), False)
+        return
+    E.oblige("%s/value%s" % (label, path), lift(got) == (want if z3.is_expr(want) else lift(want)))
+
+
+def run_json(E: EN.Engine, cls, msg: L.Message, mods, bp):
+    """to_json() / to_dict() of an instance holding in-range symbolic values: an object keyed by the schema's field names in
+    field-number order whose values are the field values (nested messages as objects, arrays - byte arrays included - as lists)"""
+    E.cur_props = ["C16"]
+    leaves: list = []
+    v = L.fresh_value(msg, "v", leaves, _mk(E))
+    for name, term, r in leaves:
+        E.assume(L.in_range(term, r))
+    E.cover("json/requires")
+    inst = cls()
+    set_values(inst, msg, v, mods)
+    real_json = bp.json
+    bp.json = _json_stub(E)
+    try:
+        text = inst.to_json()
+    finally:
+        bp.json = real_json
+    if isinstance(text, JsonText):
+        _cmp_tree(E, text.tree, json_tree(msg, v), "", "json")
+    else:
+        E.oblige("json/result", False)
+
+
+def sample_value(t: L.Ty, seedn: int = 1):
+    """a concrete in-range value tree with Python-native types (bool for bool) for the native JSON type check"""
+    r = L.resolve(t)
+    if isinstance(r, L.Message):
+        return {f.name: sample_value(f.type, seedn * 7 + f.number) for f in r.sorted_fields()}
+    if isinstance(r, L.Array):
+        return [sample_value(r.elem, seedn * 3 + k + 1) for k in range(r.cap)]
+    if isinstance(r, L.Bool):
+        return bool(seedn % 2)
+    if isinstance(r, L.Byte):
+        return (seedn * 37) % 256
+    if isinstance(r, L.Uint):
+        return (seedn * 0x9E3779B97F4A7C15) % (1 << r.n)
+    if isinstance(r, L.Int):
+        return ((seedn * 0x9E3779B97F4A7C15) % (1 << r.n)) - (1 << (r.n - 1))
+    if isinstance(r, L.Enum):
+        return r.members[seedn % len(r.members)][1]
+    raise TypeError(r)
+
+
+def load_native(outs: Dict[str, str], order: List[str]):
+    """the generated modules and bp.py exec'd with NO shadowing at all (real int, bytearray, enum, json)"""
+    bp, _ = loader.load(BP, "bitprotolib.bp", shadows=None)
+    pkg = types.ModuleType("bitprotolib")
+    pkg.bp = bp
+    pkg.__path__ = []
+    sys.modules["bitprotolib"] = pkg
+    sys.modules["bitprotolib.bp"] = bp
+    mods = {}
+    for fn in order:
+        name = fn[:-3]
+        mod = types.ModuleType(name)
+        sys.modules[name] = mod
+        exec(compile(outs[fn], "<generated %s>" % fn, "exec"), mod.__dict__)
+        mods[name] = mod
+    return mods
+
+
+def run_json_native(E: EN.Engine, outs, order, modname, msg: L.Message):
+    """native run (no proxies, real json module) on one concrete value per message: the text is well-formed JSON and parses to
+    the tree with JSON types - true/false for bools, numbers (negative where negative), lists, objects in field-number order"""
+    import json as real_json
+    E.cur_props = ["C16"]
+    val = sample_value(msg)
+    try:
+        mods = load_native(outs, order)
+        inst = py_class(mods[modname], msg)()
+
+        def put(cur, t, v):
+            r = L.resolve(t)
+            if isinstance(r, L.Message):
+                for f in r.sorted_fields():
+                    setattr(cur, f.name, put(getattr(cur, f.name), f.type, v[f.name]))
+                return cur
+            if isinstance(r, L.Array):
+                items = [put(cur[k], r.elem, v[k]) for k in range(r.cap)]
+                return bytearray(items) if isinstance(cur, bytearray) else items
+            return v
+        put(inst, msg, val)
+        text = inst.to_json()
+        tree = real_json.loads(text)
+        ok = tree == val and _same_types(tree, val)
+        E.oblige("json-native/parses-to-the-values-with-json-types", z3.BoolVal(bool(ok)))
+        d = inst.to_dict()
+        E.oblige("json-native/to_dict-keys", z3.BoolVal(list(d.keys()) == [f.name for f in msg.sorted_fields()]))
+    except Exception as e:
+        E.notes.append("json-native %s: %r" % (msg.name, e))
+        E.oblige("json-native/no-exception (%s)" % type(e).__name__, False, kind="no-exception")
+
+
+def _same_types(a, b):
+    if isinstance(b, dict):
+        return isinstance(a, dict) and list(a.keys()) == list(b.keys()) and all(_same_types(a[k], b[k]) for k in b)
+    if isinstance(b, list):
+        return isinstance(a, list) and len(a) == len(b) and all(_same_types(x, y) for x, y in zip(a, b))
+    if isinstance(b, bool):
+        return isinstance(a, bool)
+    return isinstance(a, int) and not isinstance(a, bool)
